@@ -564,6 +564,7 @@ func (x *g17) fileSet(npkg int) *FileSet {
 func MainC17() {
 	r := lib.Start()
 	defer r.Finish()
+	reseed(r)
 	r.Rule = "at least two packages sharing one subincluded file, all interpreted without error; distinct by op line"
 	scratch := os.Getenv("VERIF_SCRATCH")
 	if scratch == "" {
@@ -577,7 +578,7 @@ func MainC17() {
 		return
 	}
 	x := &g17{r: r.Rng}
-	for i := 0; i < r.N(500, 8000); i++ {
+	for i := 0; i < r.N(220, 6000); i++ {
 		npkg := 2
 		if r.Rng.Chance(25) {
 			npkg = 3
